@@ -215,7 +215,9 @@ kdf_case = st.fixed_dictionaries({
     "hsalt": st.integers(0, 100), "ikm": st.integers(0, 100), "info": st.integers(0, 100), "L": st.integers(1, 8 * 64),
     # output length relative to RFC 5869's maximum 255 * HashLen: the largest lengths must work, anything beyond must be refused
     "Lsel": st.sampled_from(["gen"] * 6 + ["max", "max", "max-1", "max-dl", "max-dl+1", "max+1", "max+dl"]),
-    "zlen": st.integers(0, 200), "klen": st.integers(0, 200), "cuts": st.lists(st.integers(0, 200), max_size=3)})
+    "zlen": st.integers(0, 200),
+    # KDF output lengths: short ones densely, and lengths around 256 blocks (the 32-bit block counter leaves its low byte)
+    "klen": st.one_of(st.integers(0, 200), st.integers(0, 200), st.integers(0, 200), st.sampled_from([8159, 8160, 8161, 8191, 8192, 8193, 16352, 16385, 70000])), "cuts": st.lists(st.integers(0, 200), max_size=3)})
 
 
 @P.sub("kdf", kdf_case, quick=2500, thorough=80000, variants=VAR)
